@@ -38,7 +38,7 @@ checks = {
          "Every day of the birth-year set at two times plus five moments around every Jie instant; direction, start offset (decoded back to elapsed time), start date, contiguity and ages of the ten great periods, and the pillars of every annual/minor/monthly fortune are compared with the rule sentences.",
          "school-1 tolerance 2 slots, school-2 1 minute (reasons in DESIGN.md C12)", "4 C12"),
  "C14": ("exhaustive enumeration of all days/months/years/targets of the holiday table against a parsed record-set model + exhaustive enumeration of Fix histories (each in its own fresh process) on the real package state",
-         "Pristine table: every view compared with sorted filters of the parsed record set; every day x 25 step counts for the workday walk; pay rate on every day. Fix machine: every history over a 21-call alphabet to depth 2 (quick) / 3 (thorough), each executed in its own process, with all views, the workday walk and the pay rate observed before the first fix-up and re-compared with the record-set model after each.",
+         "Pristine table: every view compared with sorted filters of the parsed record set; every day x 25 step counts for the workday walk; pay rate on every day. Fix machine: every history over a 33-call alphabet to depth 2 (quick and thorough) and, in the thorough tier, every depth-3 history whose second and third call come from a 17-call core alphabet, each executed in its own process, with all views, the workday walk and the pay rate observed before the first fix-up and re-compared with the record-set model after each.",
          "R5 insert/overwrite/delete semantics of Fix; statutory-day list as documented in the code", "4 C14"),
  "C11": (SWEEP + "; fixed list of ~95 route pairs per moment, functional-dependence tables for eight-character attributes",
          "Every day x 14 moments (outside the quick set's years the thorough tier uses the quick rotation: 14 on term days, month ends and every third day, else 4): both routes of every pair are executed and compared; eight-character attributes are collapsed by the pillars selected by the current sect and a second value per key is a violation with two witnesses.",
